@@ -7,6 +7,7 @@ package snaps
 // Injected with `go test -overlay`; nothing of this lives in the repository.
 
 import (
+	goyaml "github.com/goccy/go-yaml"
 	"bufio"
 	"bytes"
 	"encoding/hex"
@@ -37,6 +38,7 @@ type vMatcher struct {
 	Type         string   `json:"type"` // string | float64 | bool | map | slice | uint64
 	Ret          *string  `json:"ret"`  // custom: JSON text of the returned value
 	Err          bool     `json:"err"`  // custom: callback returns an error
+	Stmt         bool     `json:"stmt"` // options are set as separate statements on the built matcher (m.ErrOnMissingPath(false)), not chained
 }
 
 type vJSONCfg struct {
@@ -255,7 +257,11 @@ func vBuildJSONMatchers(ms []vMatcher) []match.JSONMatcher {
 				a = a.Placeholder(vJSONValue(m.Placeholder, nil))
 			}
 			if m.ErrOnMissing != nil {
-				a = a.ErrOnMissingPath(*m.ErrOnMissing)
+				if m.Stmt {
+					a.ErrOnMissingPath(*m.ErrOnMissing) // the documented setters modify the matcher they are called on
+				} else {
+					a = a.ErrOnMissingPath(*m.ErrOnMissing)
+				}
 			}
 			res = append(res, a)
 		case "type":
@@ -265,17 +271,17 @@ func vBuildJSONMatchers(ms []vMatcher) []match.JSONMatcher {
 			}
 			switch m.Type {
 			case "string":
-				res = append(res, match.Type[string](m.Paths...).ErrOnMissingPath(eom))
+				res = append(res, vType[string](m, eom))
 			case "float64":
-				res = append(res, match.Type[float64](m.Paths...).ErrOnMissingPath(eom))
+				res = append(res, vType[float64](m, eom))
 			case "bool":
-				res = append(res, match.Type[bool](m.Paths...).ErrOnMissingPath(eom))
+				res = append(res, vType[bool](m, eom))
 			case "map":
-				res = append(res, match.Type[map[string]any](m.Paths...).ErrOnMissingPath(eom))
+				res = append(res, vType[map[string]any](m, eom))
 			case "slice":
-				res = append(res, match.Type[[]any](m.Paths...).ErrOnMissingPath(eom))
+				res = append(res, vType[[]any](m, eom))
 			case "uint64":
-				res = append(res, match.Type[uint64](m.Paths...).ErrOnMissingPath(eom))
+				res = append(res, vType[uint64](m, eom))
 			default:
 				panic("type " + m.Type)
 			}
@@ -287,7 +293,11 @@ func vBuildJSONMatchers(ms []vMatcher) []match.JSONMatcher {
 				return vJSONValue(m.Ret, "<custom>"), nil
 			})
 			if m.ErrOnMissing != nil {
-				c = c.ErrOnMissingPath(*m.ErrOnMissing)
+				if m.Stmt {
+					c.ErrOnMissingPath(*m.ErrOnMissing)
+				} else {
+					c = c.ErrOnMissingPath(*m.ErrOnMissing)
+				}
 			}
 			res = append(res, c)
 		default:
@@ -297,12 +307,35 @@ func vBuildJSONMatchers(ms []vMatcher) []match.JSONMatcher {
 	return res
 }
 
+// vType builds a Type matcher; the option is chained or set as a separate statement on the built matcher
+func vType[T any](m vMatcher, eom bool) match.JSONMatcher {
+	tm := match.Type[T](m.Paths...)
+	if m.Stmt {
+		tm.ErrOnMissingPath(eom)
+		return tm
+	}
+	return tm.ErrOnMissingPath(eom)
+}
+
 func vBuildYAMLMatchers(ms []vMatcher) []match.YAMLMatcher {
 	res := []match.YAMLMatcher{}
 	for _, jm := range vBuildJSONMatchers(ms) {
 		res = append(res, jm.(match.YAMLMatcher))
 	}
 	return res
+}
+
+// vResolveYAML: the YAML text a MatchYAML call is about, independent of the library's validateYAML
+func vResolveYAML(input any) ([]byte, error) {
+	var out any
+	switch v := input.(type) {
+	case string:
+		return []byte(v), goyaml.Unmarshal([]byte(v), &out)
+	case []byte:
+		return append([]byte{}, v...), goyaml.Unmarshal(v, &out)
+	default:
+		return goyaml.MarshalWithOptions(input, yamlEncodeOptions...)
+	}
 }
 
 // vResolveJSON: the JSON text a Match*JSON call is about, independent of the library (see doMatch)
@@ -550,7 +583,9 @@ func (r *vRunner) doMatch(o vOp) {
 		}
 	case "yaml":
 		doc := vunhex(o.Doc)
-		y, err := validateYAML(vInput(o.Form, doc))
+		// validity is judged WITHOUT the library's own validateYAML: text is valid iff goccy/go-yaml decodes it (syntax,
+		// anchors and aliases); a Go value goes through the library's encoder options
+		y, err := vResolveYAML(vInput(o.Form, doc))
 		if err != nil {
 			pre = "invalid"
 		} else {
